@@ -4,28 +4,31 @@ From V Require Import Base.Util C18.Model C18.Spec C18.Corr C18.JsonProofs C18.P
 Local Open Scope N_scope.
 
 (** exit status 0 exactly when no stage reports anything ([clean] is a predicate on the stage answers);
-    guard: the run does not panic *)
-Theorem C18_exit_zero_iff_no_diagnostic : forall p,
-  crashed (run p) = false -> (exit_status (run p) = 0 <-> clean p = true).
+    no guard: a panic is the outcome [Crash], whose status is 101 *)
+Theorem C18_exit_zero_iff_no_diagnostic : forall p, exit_status (run p) = 0 <-> clean p = true.
 Proof. exact exit_zero_iff_clean. Qed.
 Print Assumptions C18_exit_zero_iff_no_diagnostic.
 
-(** a computable condition on the stage answers that rules panics out: no printer panics and every
-    position of every error names a file already in the store *)
+Theorem C18_exit_status_cases : forall p,
+  exit_status (run p) = 0 \/ exit_status (run p) = 1 \/ exit_status (run p) = 101.
+Proof. exact exit_status_cases. Qed.
+Print Assumptions C18_exit_status_cases.
+
+Theorem C18_crash_exit_status : forall p, crashed (run p) = true -> exit_status (run p) = 101.
+Proof. exact crash_exit_status. Qed.
+Print Assumptions C18_crash_exit_status.
+
+(** a computable condition on the stage answers that rules panics out (status is then 0 or 1): no printer
+    panics and every position of every error names a file already in the store *)
 Theorem C18_no_panic_guard : forall p, no_panic_b p = true -> crashed (run p) = false.
 Proof. exact no_panic_guard. Qed.
 Print Assumptions C18_no_panic_guard.
 
-Theorem C18_exit_zero_iff_no_diagnostic_guarded : forall p,
-  no_panic_b p = true -> (exit_status (run p) = 0 <-> clean p = true).
-Proof. exact (fun p H => exit_zero_iff_clean p (no_panic_guard p H)). Qed.
-Print Assumptions C18_exit_zero_iff_no_diagnostic_guarded.
-
-(** the guard is necessary: a panic ends with status 0 on a project that is not clean, with files written *)
-Theorem C18_panic_exits_zero_refuted :
-  exists p, exit_status (run p) = 0 /\ clean p = false /\ outcome_written (run p) <> [].
-Proof. exact panic_exits_zero_refuted. Qed.
-Print Assumptions C18_panic_exits_zero_refuted.
+(** a panic happens (C03/C08 finding: the printer panics on an unchecked fragment): status 101, files stay *)
+Theorem C18_crash_witness :
+  exists p, crashed (run p) = true /\ exit_status (run p) = 101 /\ clean p = false /\ outcome_written (run p) <> [].
+Proof. exact crash_witness. Qed.
+Print Assumptions C18_crash_witness.
 
 (** the same on the JSON document: exit 0 iff it has no "error" member, and then no check error *)
 Theorem C18_exit_zero_iff_no_diagnostic_json : forall p code out err w,
@@ -128,34 +131,43 @@ Theorem C18_rdjson_has_command_error : forall p out err w,
 Proof. exact rdjson_has_command_error. Qed.
 Print Assumptions C18_rdjson_has_command_error.
 
-(** command errors with a position are located in text: path:line:column first, when the line exists *)
-Theorem C18_message_for_line_located : forall path src p err additional mi,
-  existsb (fun il => N.eqb (fst il) (p_line p))
-          (firstn 5 (skipn (N.to_nat (p_line p - 2)) (enumerate_from 0 (lines src)))) = true ->
-  min_indent (firstn 5 (skipn (N.to_nat (p_line p - 2)) (enumerate_from 0 (lines src)))) = Some mi ->
-  exists rest,
-    message_for_line path src p err additional
-    = (if additional then INDENT else []) ++ path ++ [58] ++ dec (p_line p + 1) ++ [58] ++ dec (p_col p + 1) ++ [10] ++ rest.
+(** diagnostics with a position are located in text: path:line:column (1-based) comes first, whether or not a
+    source line can be shown *)
+Theorem C18_message_for_line_located : forall path src p err additional,
+  exists ind rest, (ind = [] \/ ind = INDENT)
+    /\ message_for_line path src p err additional = ind ++ location_line path p ++ rest.
 Proof. exact message_for_line_located. Qed.
 Print Assumptions C18_message_for_line_located.
 
-(** ... and not located at all when the position is on a line str::lines does not yield *)
-Theorem C18_message_for_line_bare : forall path src p err additional,
-  N.of_nat (length (lines src)) <= p_line p -> message_for_line path src p err additional = err.
-Proof. exact message_for_line_bare. Qed.
-Print Assumptions C18_message_for_line_bare.
+Theorem C18_message_for_line_no_line : forall path src p err additional,
+  N.of_nat (length (lines src)) <= p_line p ->
+  message_for_line path src p err additional = location_line path p ++ err.
+Proof. exact message_for_line_no_line. Qed.
+Print Assumptions C18_message_for_line_no_line.
 
-Theorem C18_parse_error_at_end_of_input_not_located_refuted :
-  forall f, exists out err w,
-    run (eof_witness f) = Exit 1 out err w
-    /\ locations_of (s "/w/q.graphql") out = [] /\ locations_of (s "/w/q.graphql") err = [].
-Proof. exact parse_error_at_end_of_input_not_located_refuted. Qed.
-Print Assumptions C18_parse_error_at_end_of_input_not_located_refuted.
+Theorem C18_positioned_error_located : forall files e p m,
+  print_positioned_error files e = Some m -> e_pos e = Some p -> p_builtin p = false ->
+  exists f rest, get_file files (p_file p) = Some f /\ m = location_line (f_path f) p ++ rest.
+Proof. exact positioned_error_located. Qed.
+Print Assumptions C18_positioned_error_located.
 
+(** the former finding, now located in all three formats *)
+Theorem C18_parse_error_at_end_of_input_located :
+  forall f, exists texts,
+    run_texts (eof_witness f) = Some (1, texts)
+    /\ flat_map (locations_of (s "/w/q.graphql")) texts = [(2, 1)].
+Proof. exact parse_error_at_end_of_input_located. Qed.
+Print Assumptions C18_parse_error_at_end_of_input_located.
+
+(** still a finding: an error value of a printer reaches the driver without its position *)
 Theorem C18_generate_error_not_located_refuted :
-  forall f, exists out err w,
-    run (scalar_witness f) = Exit 1 out err w
-    /\ locations_of (s "/w/schema.graphql") out = [] /\ locations_of (s "/w/schema.graphql") err = [].
+  forall f, exists texts,
+    run_texts (scalar_witness f) = Some (1, texts)
+    /\ flat_map (locations_of (s "/w/schema.graphql")) texts = []
+    /\ match run (scalar_witness f) with
+       | Exit _ out _ _ => match f with Human => True | _ => exists t, parse_json out = Some t /\ (json_diags t = Some [] \/ rdjson_diags t = Some []) end
+       | Crash _ _ => False
+       end.
 Proof. exact generate_error_not_located_refuted. Qed.
 Print Assumptions C18_generate_error_not_located_refuted.
 
